@@ -8,8 +8,10 @@ d=$(mktemp -d /tmp/seedtest.XXXXXX)
 cp -r /repo/pylops "$d/pylops"
 ( cd "$d" && patch -s -p1 < "$patch" ) || { echo "PATCH DOES NOT APPLY"; rm -rf "$d"; exit 2; }
 if [ "$demo" != "-" ]; then
-  ( cd /tmp && PYTHONPATH="$d" /venv/bin/python -W ignore "$demo" >/dev/null 2>&1 ); echo "demo with patch: exit $?"
-  ( cd /tmp && PYTHONPATH=/repo /venv/bin/python -W ignore "$demo" >/dev/null 2>&1 ); echo "demo without patch: exit $?"
+  # the script's own directory comes first on sys.path: run copies placed next to the tree under test
+  cp "$demo" "$d/_demo.py"; mkdir -p "$d/clean"; cp "$demo" "$d/clean/_demo.py"
+  ( cd "$d" && PYTHONPATH="$d" /venv/bin/python -W ignore "$d/_demo.py" >/dev/null 2>&1 ); echo "demo with patch: exit $?"
+  ( cd "$d/clean" && PYTHONPATH=/repo /venv/bin/python -W ignore "$d/clean/_demo.py" >/dev/null 2>&1 ); echo "demo without patch: exit $?"
 fi
 cd /verif
 for p in "$@"; do
